@@ -48,7 +48,15 @@ if [ -n "${MUT_CHECK:-}" ]; then
   props=""
 fi
 for p in $props; do
-  out=$($base/target/verif/$crate $p --tier ${MUT_TIER:-quick} --seed ${VERIF_SEED:-1} 2>/dev/null | grep '^LRV-RESULT ' | tail -1)
+  # the quick tier of ./check runs some monitors at a multiple of their base workload (quick_scale)
+  scale=1
+  if [ "${MUT_TIER:-quick}" = "quick" ]; then
+    scale=$(python3 -c "
+from importlib.machinery import SourceFileLoader
+m = SourceFileLoader('chk', '/verif/check').load_module()
+print(m.PROPS['$p'].get('quick_scale', 1))" 2>/dev/null || echo 1)
+  fi
+  out=$($base/target/verif/$crate $p --tier ${MUT_TIER:-quick} --seed ${VERIF_SEED:-1} --scale $scale 2>/dev/null | grep '^LRV-RESULT ' | tail -1)
   echo "$out" | python3 -c "
 import sys,json
 l=sys.stdin.read()
